@@ -8,7 +8,14 @@ Decided structurally:
     0x01 followed by left then right; no other hasher is created in the crate; the audit walk
     combines (acc, sibling) when the parent index is larger and (sibling, acc) otherwise, then
     moves to the parent; `perform` returns the equality of the expected and reconstructed root.
- M3 (K1) `Proof` values only come from construct_proof / try_into_proof / unchecked_from_parts.
+ M3 (K1) `Proof` values only come from construct_proof / try_into_proof / unchecked_from_parts
+    (MIR rule + compile-fail witnesses for code outside the crate).
+ M4 (K5 formulas) tree geometry: the thirteen straight-line index helpers have the closed forms
+    of the in-order layout (compared canonically), complete_parent climbs perfect parents until
+    inside the tree, the sibling is the other child of the parent, audit_path_len counts the
+    climb to the root.
+ M5 (K5) incremental update: after a push every ancestor of the new leaf up to the root is
+    recomputed as combine(complete_left_child, complete_right_child) of that ancestor.
 Not decided: equality with the RFC 6962 tree hash and proof soundness/completeness for all
 sizes (index arithmetic over unbounded sizes and SHA-256: solver/prover territory).
 """
